@@ -307,9 +307,13 @@ pub fn check_filter(rep: &mut Report, rng: &mut Rng, f: &SemFilter, label: &str)
     if !tags_representable(&tparts) {
         return; // the tags constructor is responsible (check_tags)
     }
-    let tags = match OwnedTags::new(&tparts) {
-        Ok(t) => t,
-        Err(_) => return,
+    let tags = match catch(|| OwnedTags::new(&tparts)) {
+        Ok(Ok(t)) => t,
+        Ok(Err(_)) => return,
+        Err(p) => {
+            rep.finding(&format!("panic:OwnedTags::new:{}@{}", panic_class(&p.message), p.location), &p.message, rp.clone());
+            return;
+        }
     };
     let ids: Vec<Id> = f.ids.iter().map(|i| Id::from_bytes(*i)).collect();
     let authors: Vec<Pubkey> = f.authors.iter().map(|i| Pubkey::from_bytes(*i)).collect();
